@@ -15,6 +15,7 @@ use futures::Sink;
 use futures::SinkExt;
 use futures::Stream;
 use futures::StreamExt;
+use futures::future;
 use futures::stream::FuturesUnordered;
 use futures::stream::SplitSink;
 use http::HeaderName;
@@ -155,6 +156,10 @@ where
 {
     let (c_l, l_c) = local_client.split();
     let (c_s, s_c) = client_server.split();
+    // a source that fails ends like one that closes: what it had delivered before is flushed to the other side, and that
+    // side is closed, instead of being dropped unflushed with the flow (as on the server)
+    let l_c = l_c.filter_map(|r| future::ready(r.ok())).map(Ok);
+    let s_c = s_c.filter_map(|r| future::ready(r.ok())).map(Ok);
 
     let l_c_s = async {
         match l_c.forward(c_s).await {
